@@ -230,7 +230,8 @@ def observe_hypotheses(ctx, t1, t2, zip_, thr, always, d, conv, rem, add, g, hyp
                                           "detail": "a sorted pass of Delta does not visit sibling indexes %s (fallback comparator used: %s)"
                                                     % ("descending" if not (DC.desc_ok(r6) and DC.desc_ok(r9)) else "ascending", fallback),
                                           "orders": repr((r6, r9, a7))[:600]})
-    hyp_cases.append((DC.hyp_expr(t1, t2, zip_, thr, False, always, conv, rem, add), [g, ops_ok, ord_ok], dict(tag, hypotheses="guardsb/valid_ops/orders_ok")))
+    hyp_cases.append(tag)
+    return [g, ops_ok, ord_ok]
 
 
 def one_pair(ctx, t1, t2, cases, full=False, corr=True, hyp_cases=None):
@@ -248,12 +249,16 @@ def one_pair(ctx, t1, t2, cases, full=False, corr=True, hyp_cases=None):
             tree = dd.tree if view == "text" else dd
             rem, add = DC.impl_orders(d)
             conv = DC.conv_table(DC.type_change_pairs(tree))
-            expr = DC.model_expr(t1, t2, zip_, thr, False, always, t1, conv, rem, add)
             exp = [DC.delta_obs(d.diff), [DC.canon_unordered(out["result"]), out["errors"] > 0]]
             tag = dict(t1=repr(t1), t2=repr(t2), zip=zip_, thr=thr, always=always, verbose=verbose, view=view)
-            cases.append((expr, exp, tag))
             if hyp_cases is not None:
-                observe_hypotheses(ctx, t1, t2, zip_, thr, always, d, conv, rem, add, g, hyp_cases, tag)
+                # one Coq expression: payload + applied result + the theorem's hypotheses observed
+                hyp = observe_hypotheses(ctx, t1, t2, zip_, thr, always, d, conv, rem, add, g, hyp_cases, tag)
+                expr = DC.model_expr_hyp(t1, t2, zip_, thr, False, always, t1, conv, rem, add)
+                cases.append((expr, exp + [hyp], tag))
+            else:
+                expr = DC.model_expr(t1, t2, zip_, thr, False, always, t1, conv, rem, add)
+                cases.append((expr, exp + [None], tag))
             if d.diff.get("_iterable_opcodes"):
                 ctx.count("delta_with_opcodes")
 
@@ -472,8 +477,12 @@ def run(ctx):
     ignore_order_clause(ctx, 1500 if ctx.thorough else 250)
     for c in cases[:3]:
         ctx.sample(c[2])
-    ctx.coq_cases("c01", DC.HDR, cases, shard=120, label="payload+apply")
-    ctx.coq_cases("c01hyp", DC.HYP_HDR, hyp_cases, shard=160, label="theorem-hypotheses")
+    hdr = DC.HYP_HDR
+    both = [(e, x, t) for (e, x, t) in cases if x[-1] is not None]
+    plain = [(e, x[:-1], t) for (e, x, t) in cases if x[-1] is None]
+    ctx.coq_cases("c01", hdr, both, shard=120, label="payload+apply+theorem-hypotheses")
+    ctx.coq_cases("c01p", DC.HDR, plain, shard=120, label="payload+apply")
+    ctx.note("hypothesis_cases", len(hyp_cases))
     tuple_length_probe(ctx)
     witnesses(ctx)
 
